@@ -49,7 +49,7 @@ func uptr(v uint) *uint { return &v }
 // initial in-memory parents: as loaded with the relation under test preloaded.
 func initialParents(c Cfg) []Parent {
 	a := Parent{ID: pA, Name: "A", OwnerID: uptr(1), BossID: 1}
-	t1 := Target{ID: 1, Name: "t1", OneID: 1, ManyID: uptr(1), PolyID: 1, PolyType: polyValue}
+	t1 := Target{ID: 1, Name: "t1", OneID: 1, ManyID: uptr(1), PolyID: 1, PolyType: polyValue, SoloID: 1, SoloType: polyValue}
 	switch c.Kind {
 	case HasOne:
 		a.One = t1
@@ -59,6 +59,8 @@ func initialParents(c Cfg) []Parent {
 		a.Owner = &t1
 	case BelongsToVal:
 		a.Boss = t1
+	case PolyOne:
+		a.Pet = t1
 	case Many2Many:
 		a.Tags = []*Target{&t1}
 	case Poly:
@@ -85,7 +87,7 @@ func fmtTarget(t *Target) string {
 	if t.ManyID != nil {
 		many = fmt.Sprint(*t.ManyID)
 	}
-	return fmt.Sprintf("{%d %s one=%d many=%s poly=%d/%q}", t.ID, t.Name, t.OneID, many, t.PolyID, t.PolyType)
+	return fmt.Sprintf("{%d %s one=%d many=%s poly=%d/%q solo=%d/%q}", t.ID, t.Name, t.OneID, many, t.PolyID, t.PolyType, t.SoloID, t.SoloType)
 }
 
 // normalised list: distinct elements, sorted (the property speaks about the
@@ -117,8 +119,8 @@ func memString(p *Parent) string {
 	if p.OwnerID != nil {
 		owner = fmt.Sprint(*p.OwnerID)
 	}
-	return fmt.Sprintf("parent{%d %s ownerID=%s Owner=%s bossID=%d Boss=%s One=%s Many=%s Tags=%s Toys=%s}",
-		p.ID, p.Name, owner, fmtTarget(p.Owner), p.BossID, fmtTarget(&p.Boss), fmtTarget(&p.One), fmtTargets(ptrs(p.Many)), fmtTargets(p.Tags), fmtTargets(ptrs(p.Toys)))
+	return fmt.Sprintf("parent{%d %s ownerID=%s Owner=%s bossID=%d Boss=%s One=%s Many=%s Tags=%s Toys=%s Pet=%s}",
+		p.ID, p.Name, owner, fmtTarget(p.Owner), p.BossID, fmtTarget(&p.Boss), fmtTarget(&p.One), fmtTargets(ptrs(p.Many)), fmtTargets(p.Tags), fmtTargets(ptrs(p.Toys)), fmtTarget(&p.Pet))
 }
 
 // memIDs: the distinct primary keys held by the relation field under test.
@@ -136,6 +138,10 @@ func memIDs(k Kind, p *Parent) []uint {
 	case BelongsToVal:
 		if p.Boss.ID != 0 {
 			set[p.Boss.ID] = true
+		}
+	case PolyOne:
+		if p.Pet.ID != 0 {
+			set[p.Pet.ID] = true
 		}
 	case HasMany:
 		for _, t := range p.Many {
